@@ -179,6 +179,13 @@ impl Prop for C15 {
                 // on later streams only a share of the big types' atoms (they dominate the cost)
                 for (ai, a) in s.trace.atoms.iter().enumerate() {
                     if a.kind == AtomKind::SeqLen {
+                        // a sequence announcing other lengths (with well-formed surplus elements
+                        // inserted): if it decodes at all, it must re-encode to what was consumed
+                        for (to, trail) in [("n+1", true), ("2n", true), ("n-1", false), ("n+1", false)] {
+                            let mut c1 = base.clone();
+                            c1["m"] = json!({"k": "seqlen", "atom": ai, "to": to, "trail": trail});
+                            v.push(c1);
+                        }
                         continue;
                     }
                     if big && stream > 0 && !sch.chance(1, 6) {
@@ -273,7 +280,7 @@ fn run_atom(o: &mut Outcome, case: &Value) {
     let faulted = m["k"] != "none";
     o.events = 1;
     let what = format!("{} with {}", s.ty, mutate::describe(m));
-    if faulted {
+    if faulted && m["k"] == "atom" {
         o.bump(&format!("fault.atom.{}", m["sub"].as_str().unwrap_or("?")));
     }
     match in_process_decode(ty, &bytes) {
@@ -289,6 +296,24 @@ fn run_atom(o: &mut Outcome, case: &Value) {
             }
         }
         Ok(Ok(reenc)) => {
+            let length_changing = m["k"] == "seqlen";
+            if length_changing {
+                // layout differs from the honest sample: only canonicity can be judged
+                o.bump("fault.atom.seqlen");
+                if reenc.len() > bytes.len() || reenc[..] != bytes[..reenc.len()] {
+                    o.violate(
+                        "accepted-non-canonical-encoding",
+                        &format!("{}:{}", s.ty, s.trace.atoms[m["atom"].as_u64().unwrap_or(0) as usize].path),
+                        format!("{}: a sequence with an altered length prefix decodes and re-encodes to different bytes", what),
+                    );
+                } else {
+                    o.bump("probe.accepted_after_substitution");
+                }
+                o.nontrivial = true;
+                o.shape = mix(&[ty as u64, stream, idx as u64, crate::hash_str(&m.to_string())]);
+                o.log_hash = mix(&[o.shape, o.violations.len() as u64]);
+                return;
+            }
             if reenc != bytes {
                 let site = if faulted { format!("{}:{}", s.ty, s.trace.atoms[m["atom"].as_u64().unwrap_or(0) as usize].path) } else { s.ty.clone() };
                 o.violate(
